@@ -314,4 +314,33 @@ PROPS = {
             rapid("c12", "TestPropRouting", quick=(1200, 6), thorough=(20000, 14)),
         ],
     },
+    "C11": {
+        "level": "exploration",
+        "rule": "a real imapclient with one pending command of every response-consuming kind (CAPABILITY, LIST+STATUS, STATUS x2, FETCH, "
+                "UID SEARCH, SEARCH, SORT, THREAD, GETQUOTA, GETQUOTAROOT, GETMETADATA, NAMESPACE, COPY, MOVE, EXPUNGE, ENABLE, SELECT) "
+                "and all unilateral handlers installed is fed a server byte stream: 1..8 grammar-generated responses of 28 kinds "
+                "(kit/respgen: boundary numbers 0, 2^32-1, 2^32, 2^63-1, 2^63, 2^64, every response code, envelopes, body structures to "
+                "depth 3 with extension data, sections, literals, NIL variants, ESEARCH/SORT/THREAD/QUOTA/METADATA), byte/token "
+                "mutations of them with hostile constants, or raw bytes; then every accessor of every value handed back is invoked "
+                "(Nums/AllSeqNums/AllUIDs when the width is within 16x the input, Dynamic, String, Walk, MediaType, Disposition, "
+                "Filename, Addr, Collect). Violations: accessor or reader panic ('panic reading response'), worker death (attributed "
+                "through the persisted in-flight stream), a dynamic set or a zero sequence number/UID delivered in SEARCH/SORT/THREAD/"
+                "ESEARCH/COPYUID/FETCH/EXPUNGE results, no termination within 20 s. Deterministic probes: 8 recursive productions x "
+                "depths {10,999,1001,5000,100000} in a child process with a 32 MiB stack cap (depth > 1000 must be rejected; "
+                "allocation <= 300 B/input byte + 32 MiB) and 6 flat families at n and 4n (allocation growth <= 8x); number differential: "
+                "for 10 numeric fields a wire number (boundaries, any uint64, up to 25 digits) is delivered exactly or, outside the "
+                "field's range, not at all. Non-trivial: "
+                "stream that is grammar-derived or delivers at least one value; distinct by hash of the stream.",
+        "assumptions": ["enumeration accessors are not invoked on sets wider than 16x the input size: listed known finding F-C11d (counted)",
+                        "the resource envelope is generous (linear with large constants); only gross super-linearity is detected"],
+        "units": [
+            plain("c11", "TestReplayFindings"),
+            plain("c11", "TestKnownEnumerationWidth"),
+            plain("c11", "TestReplayNesting"),
+            plain("c11", "TestReplayScaling"),
+            rapid("c11", "TestPropStream", quick=(6000, 6), thorough=(120000, 12)),
+            rapid("c11", "TestPropNumbers", quick=(4000, 2), thorough=(60000, 4)),
+            fuzz("c11", "FuzzClientBytes", secs=240),
+        ],
+    },
 }
